@@ -26,5 +26,5 @@ CHECK = {
         "pairs without a common protocol version are skipped here (C19)",
         "with a full validation queue a correctly transferred element may be dropped (the statement only constrains what is handed over)",
     ],
-    "required_classes": {"quick": ["mixed-verdicts", "rate-limited-reply", "transfer-completed", "lost-transfer", "overlapping-offer", "version:0", "version:1", "stream-discarded:more", "stream-discarded:truncated", "offer-after-overlapping-offer-ended", "concurrent-offers:4", "concurrent-offers-of-different-sizes", "accepted-all-64-keys:stream=more", "dial:stream-opened:cid=0x0000", "dial:nothing-accepted-nothing-sent", "third-party-speaks-version-0"]},
+    "required_classes": {"quick": ["mixed-verdicts", "rate-limited-reply", "transfer-completed", "lost-transfer", "overlapping-offer", "version:0", "version:1", "stream-discarded:more", "stream-discarded:truncated", "offer-after-overlapping-offer-ended", "concurrent-offers:4", "concurrent-offers-of-different-sizes", "accepted-all-64-keys:stream=more", "dial:stream-opened:cid=0x0000", "dial:nothing-accepted-nothing-sent", "third-party-speaks-version-0", "offer-after-overlapping-version-0-offer-ended"]},
 }
